@@ -214,76 +214,51 @@ Proof. destruct f. unfold pad_field. cbn. now rewrite app_nil_r. Qed.
 Lemma map_pad_0 (d : fields) : map (fun nf => (fst nf, pad_field 0 (snd nf))) d = d.
 Proof. induction d as [| [k f] d IH]; cbn [map fst snd]; [reflexivity |]. now rewrite pad_field_0, IH. Qed.
 
-Lemma dict_set_Forall_replace (P : Z * field -> Prop) d k f :
-  NoDup (map fst d) -> Forall (fun nf => fst nf = k \/ P nf) d -> P (k, f) -> Forall P (dict_set d k f).
+(* the fields actually written carry one record per written point / cell *)
+Lemma written_nodal_ok w : dict_ok (length (w_points w)) (w_nodal w) ->
+  Forall (fun nf => field_ok (length (w_points w) + length (w_spheres w)) (snd nf)) (written_nodal w).
 Proof.
-  intros Hn H Hf. induction H as [| [k' f'] d Hx Hd IH]; cbn [dict_set]; [repeat constructor; exact Hf |].
-  cbn [map fst] in Hn. inversion Hn as [| ? ? Hnin Hn']; subst.
-  destruct (Z.eqb_spec k k') as [-> | Hk].
-  - constructor; [exact Hf |]. apply Forall_forall. intros x Hx'. rewrite Forall_forall in Hd.
-    destruct (Hd _ Hx') as [E | Px]; [| exact Px]. exfalso. apply Hnin. rewrite <- E. now apply in_map.
-  - constructor; [| now apply IH]. cbn [fst] in Hx. destruct Hx as [E | Px]; [congruence | exact Px].
+  intros [_ Hf]. unfold written_nodal.
+  assert (Hp : Forall (fun nf => field_ok (length (w_points w) + length (w_spheres w)) (snd nf))
+                      (map (fun nf => (fst nf, pad_field (length (w_spheres w)) (snd nf))) (w_nodal w))).
+  { apply Forall_forall. intros x Hx. apply in_map_iff in Hx. destruct Hx as [y [<- Hy]]. cbn [snd].
+    apply pad_field_ok. rewrite Forall_forall in Hf. exact (Hf _ Hy). }
+  destruct (is_nil (w_spheres w)); [exact Hp |]. apply dict_set_Forall; [exact Hp |]. cbn [snd].
+  replace (length (w_spheres w)) with (length (map snd (w_spheres w))) by apply map_length. apply sphere_field_ok.
 Qed.
 
-(* the point-data fields written when the all-node count equals the output-node count *)
-Lemma padded_nodal_ok w : nodal_ok w ->
-  Forall (fun nf => (fst nf = sr_name /\ w_spheres w <> []) \/ field_ok (length (w_points w) + length (w_spheres w)) (snd nf))
-         (map (fun nf => (fst nf, pad_field (length (w_spheres w)) (snd nf))) (w_nodal w)).
+Lemma written_cell_ok w : dict_ok (length (w_cells w)) (w_cell w) ->
+  Forall (fun nf => field_ok (length (w_cells w) + length (w_edges w)) (snd nf)) (written_cell w).
 Proof.
-  intros [_ Hf]. apply Forall_forall. intros x Hx. apply in_map_iff in Hx. destruct Hx as [y [<- Hy]]. cbn [fst snd].
-  rewrite Forall_forall in Hf. destruct (Hf _ Hy) as [L | R]; [now left | right; now apply pad_field_ok].
+  intros [_ Hf]. unfold written_cell. apply Forall_forall. intros x Hx. apply in_map_iff in Hx.
+  destruct Hx as [y [<- Hy]]. cbn [snd]. apply pad_field_ok. rewrite Forall_forall in Hf. exact (Hf _ Hy).
 Qed.
 
-Lemma written_nodal_ok w : nodal_ok w ->
-  Forall (fun nf => field_ok (length (w_points w) + length (w_spheres w)) (snd nf))
-    (if is_nil (w_spheres w) then map (fun nf => (fst nf, pad_field (length (w_spheres w)) (snd nf))) (w_nodal w)
-     else dict_set (map (fun nf => (fst nf, pad_field (length (w_spheres w)) (snd nf))) (w_nodal w)) sr_name
-                   (sphere_field (length (w_points w)) (map snd (w_spheres w)))).
+Lemma p_pointdata_emit w : wf_writer w ->
+  p_data KPointData (emit_pointdata w ++ emit_celldata w ++ []) = Some (abs_pd w, emit_celldata w ++ []).
 Proof.
-  intros Hn. pose proof (padded_nodal_ok w Hn) as Hp. destruct (is_nil (w_spheres w)) eqn:Es.
-  - apply is_nil_true in Es. eapply Forall_impl; [| exact Hp]. intros a [[_ Hc] | Ha]; [contradiction | exact Ha].
-  - apply dict_set_Forall_replace.
-    + rewrite map_fst_pad. apply Hn.
-    + eapply Forall_impl; [| exact Hp]. intros a [[Hc _] | Ha]; [now left | now right].
-    + cbn [snd]. replace (length (w_spheres w)) with (length (map snd (w_spheres w))) by apply map_length.
-      apply sphere_field_ok.
-Qed.
-
-Lemma p_pointdata_emit w : wf_writer w -> all_nodes_written_if_spheres w ->
-  p_data KPointData (fst (nodal_step w) ++ emit_celldata w ++ []) = Some (abs_pd w, emit_celldata w ++ []).
-Proof.
-  intros (_ & _ & Hn & _) Hall. pose proof (written_nodal_ok w Hn) as Hok. unfold nodal_step, abs_pd.
+  intros (_ & _ & Hn & _). pose proof (written_nodal_ok w Hn) as Hok. unfold emit_pointdata, abs_pd.
   destruct (is_nil (w_nodal w) && is_nil (w_spheres w)) eqn:E.
-  - cbn [fst app]. unfold emit_celldata. destruct (is_nil (w_cell w)); reflexivity.
-  - cbn [fst]. rewrite <- app_assoc.
-    assert (Hnall : is_nil (w_spheres w) = false -> w_nall w = length (w_points w)).
-    { intros Es. apply is_nil_false in Es. destruct Hall as [? | Hall]; [contradiction | exact Hall]. }
-    destruct (is_nil (w_spheres w)) eqn:Es.
-    + rewrite p_data_emit; [reflexivity | reflexivity | | apply celldata_no_TF].
-      apply is_nil_true in Es. rewrite Es in *. cbn [length] in *.
-      eapply Forall_impl; [| exact Hok]. intros a Ha. now apply field_ok_arr_len.
-    + rewrite (Hnall eq_refl). rewrite p_data_emit; [reflexivity | reflexivity | | apply celldata_no_TF].
-      eapply Forall_impl; [| exact Hok]. intros a Ha. now apply field_ok_arr_len.
+  - cbn [app]. unfold emit_celldata. destruct (is_nil (w_cell w)); reflexivity.
+  - rewrite <- app_assoc. rewrite p_data_emit; [reflexivity | reflexivity | | apply celldata_no_TF].
+    eapply Forall_impl; [| exact Hok]. intros a Ha. now apply field_ok_arr_len.
 Qed.
 
-Lemma p_celldata_emit w : wf_writer w -> no_cell_data_with_edges w ->
-  p_data KCellData (emit_celldata w ++ []) = Some (abs_cd w, []).
+Lemma p_celldata_emit w : wf_writer w -> p_data KCellData (emit_celldata w ++ []) = Some (abs_cd w, []).
 Proof.
-  intros (_ & _ & _ & [Hnd Hf]) Hce. unfold emit_celldata, abs_cd.
+  intros (_ & _ & _ & Hc). pose proof (written_cell_ok w Hc) as Hok. unfold emit_celldata, abs_cd.
   destruct (is_nil (w_cell w)) eqn:E; [reflexivity |].
-  apply is_nil_false in E. destruct Hce as [? | He]; [contradiction |]. rewrite He. cbn [length].
-  rewrite Nat.add_0_r. rewrite <- app_assoc, p_data_emit; [| reflexivity | | exact I].
-  - do 4 f_equal. apply map_ext. intros [k f]. cbn [fst snd]. now rewrite pad_field_0.
-  - eapply Forall_impl; [| exact Hf]. intros a Ha. now apply field_ok_arr_len.
+  rewrite <- app_assoc, p_data_emit; [| reflexivity | | exact I].
+  - unfold written_cell. now rewrite map_map.
+  - eapply Forall_impl; [| exact Hok]. intros a Ha. now apply field_ok_arr_len.
 Qed.
 
-Lemma parse_write w : wf_writer w -> all_nodes_written_if_spheres w -> no_cell_data_with_edges w ->
-  parse (fst (write w)) = Some (abstract w).
+Lemma parse_write w : wf_writer w -> parse (fst (write w)) = Some (abstract w).
 Proof.
-  intros Hwf Hall Hce. unfold write. cbn [fst]. unfold header. cbn [app parse].
+  intros Hwf. unfold write. cbn [fst]. unfold header. cbn [app parse].
   rewrite p_points_emit, p_cells_emit by (destruct Hwf as (_ & Hc & _); exact Hc). rewrite p_types_emit.
   rewrite <- (app_nil_r (emit_celldata w)). cbn [app].
-  rewrite (p_pointdata_emit w Hwf Hall), (p_celldata_emit w Hwf Hce). reflexivity.
+  rewrite (p_pointdata_emit w Hwf), (p_celldata_emit w Hwf). reflexivity.
 Qed.
 
 Lemma data_ok_fields n (fs : fields) : Forall (fun nf => field_ok n (snd nf)) fs ->
@@ -297,7 +272,7 @@ Qed.
 
 Lemma check_abstract w : wf_writer w -> in_range w -> check (abstract w) = true.
 Proof.
-  intros (_ & Hc & Hn & [_ Hcf]) Hr. unfold check.
+  intros (_ & Hc & Hn & Hcf) Hr. unfold check.
   assert (E1 : c_size (abstract w) = true) by (unfold c_size, abstract; cbn [d_size d_cells]; apply Nat.eqb_refl).
   assert (E2 : c_types (abstract w) = true).
   { unfold c_types, abstract, abs_types, abs_cells. cbn [d_types d_cells].
@@ -319,10 +294,8 @@ Proof.
       by (unfold abs_cells; now rewrite app_length, map_length).
     destruct (is_nil (w_cell w)); [reflexivity |].
     replace (map (fun nf => to_array (fst nf, pad_field (length (w_edges w)) (snd nf))) (w_cell w))
-      with (map to_array (map (fun nf => (fst nf, pad_field (length (w_edges w)) (snd nf))) (w_cell w)))
-      by (now rewrite map_map).
-    apply data_ok_fields. apply Forall_forall. intros x Hx. apply in_map_iff in Hx. destruct Hx as [y [<- Hy]].
-    cbn [snd]. apply pad_field_ok. rewrite Forall_forall in Hcf. exact (Hcf _ Hy). }
+      with (map to_array (written_cell w)) by (unfold written_cell; now rewrite map_map).
+    apply data_ok_fields. exact (written_cell_ok w Hcf). }
   now rewrite E1, E2, E3, E4, E5.
 Qed.
 
@@ -379,13 +352,13 @@ Qed.
 Lemma add_nodal_field_wf w nm data ft dt w' :
   wf_writer w -> add_nodal_field w nm data ft dt = Some w' -> wf_writer w'.
 Proof.
-  intros (Hl & Hc & [Hn1 Hn2] & Hcf) H. unfold add_nodal_field in H.
+  intros (Hl & Hc & Hn & Hcf) H. unfold add_nodal_field in H.
   destruct (gather data (w_outnodes w)) as [sel |] eqn:Es; [| discriminate].
   destruct (mapM (format_entity ft) sel) as [rows |] eqn:Er; [| discriminate]. inversion H.
-  unfold wf_writer, nodal_ok, set_nodal. cbn [w_outnodes w_points w_cells w_k w_nodal w_cell w_spheres].
+  unfold wf_writer, set_nodal. cbn [w_outnodes w_points w_cells w_k w_nodal w_cell].
   repeat split; try assumption; try apply Hcf.
-  - now apply dict_set_nodup.
-  - apply dict_set_Forall; [exact Hn2 |]. right. cbn [snd]. rewrite <- Hl, <- (mapM_length _ _ _ Es).
+  - apply dict_set_nodup, Hn.
+  - apply dict_set_Forall; [apply Hn |]. cbn [snd]. rewrite <- Hl, <- (mapM_length _ _ _ Es).
     eapply formatted_field_ok; exact Er.
 Qed.
 
@@ -396,89 +369,27 @@ Proof.
   destruct (Nat.eqb_spec (length data) (length (w_cells w))) as [El |]; [| now inversion H; subst].
   destruct (mapM (format_entity ft) data) as [rows |] eqn:Er; [| discriminate]. inversion H.
   destruct Hw as (Hl & Hc & Hn & Hcf).
-  unfold wf_writer, nodal_ok, set_cell. cbn [w_outnodes w_points w_cells w_k w_nodal w_cell w_spheres].
+  unfold wf_writer, set_cell. cbn [w_outnodes w_points w_cells w_k w_nodal w_cell].
   repeat split; try assumption; try apply Hn.
   - apply dict_set_nodup, Hcf.
   - apply dict_set_Forall; [apply Hcf |]. cbn [snd]. rewrite <- El. eapply formatted_field_ok; exact Er.
 Qed.
 
 Lemma add_sphere_wf w x y r : wf_writer w -> wf_writer (add_sphere w x y r).
-Proof.
-  intros (Hl & Hc & [Hn1 Hn2] & Hcf). unfold wf_writer, nodal_ok, add_sphere.
-  cbn [w_outnodes w_points w_cells w_k w_nodal w_cell w_spheres]. repeat split; try assumption; try apply Hcf.
-  eapply Forall_impl; [| exact Hn2]. intros a [[E _] | Ha]; [left | now right].
-  split; [exact E |]. intros Hnil. apply app_eq_nil in Hnil. destruct Hnil as [_ Hnil]. discriminate.
-Qed.
+Proof. intros H. exact H. Qed.
 Lemma add_contact_edges_wf w es : wf_writer w -> wf_writer (add_contact_edges w es).
 Proof. intros H. exact H. Qed.
 
-(* ------------------------------------------------------------------ repeated writes *)
-Lemma write_no_spheres w : w_spheres w = [] -> snd (write w) = w.
+(* ------------------------------------------------------------------ repeated writes: write() does not change the writer *)
+Lemma write_state w : snd (write w) = w.
+Proof. reflexivity. Qed.
+Lemma repeated_writes w : forall n o, In o (writes n w) -> o = fst (write w).
 Proof.
-  intros H. unfold write, nodal_step. cbn [snd]. rewrite H. cbn [is_nil length].
-  rewrite map_pad_0. destruct (is_nil (w_nodal w) && true); cbn [snd]; destruct w; cbn in *; now subst.
+  intros n. induction n as [| n IH]; intros o Hin; cbn [writes In] in Hin; [contradiction |].
+  destruct Hin as [<- | Hin]; [reflexivity |]. rewrite write_state in Hin. now apply IH.
 Qed.
-
-Lemma writes_no_spheres w : w_spheres w = [] -> forall n o, In o (writes n w) -> o = fst (write w).
-Proof.
-  intros H n. induction n as [| n IH]; intros o Hin; cbn [writes In] in Hin; [contradiction |].
-  destruct Hin as [<- | Hin]; [reflexivity |]. rewrite (write_no_spheres w H) in Hin. now apply IH.
-Qed.
-
-Definition SF (w : writer) : field := sphere_field (w_nall w) (map snd (w_spheres w)).
-Definition out_sr (w : writer) : list tok :=
-  header ++ emit_points w ++ emit_cells w ++ emit_types w
-  ++ ([TK KPointData; tnat (w_nall w + length (w_spheres w))] ++ emit_fields [(sr_name, SF w)]) ++ emit_celldata w.
-Definition sr_state (w : writer) : Prop :=
-  w_spheres w <> [] /\ (w_nodal w = [] \/ exists f, w_nodal w = [(sr_name, f)]).
-
-Lemma nodal_shape (d : fields) : NoDup (map fst d) -> (forall nm, In nm (map fst d) -> nm = sr_name) ->
-  d = [] \/ exists f, d = [(sr_name, f)].
-Proof.
-  intros Hn Ha. destruct d as [| [k f] [| [k2 f2] d]]; [now left | right | exfalso].
-  - exists f. rewrite (Ha k); [reflexivity | now left].
-  - cbn [map fst] in *. inversion Hn as [| ? ? Hnin _]; subst. apply Hnin.
-    rewrite (Ha k), (Ha k2); cbn; auto.
-Qed.
-
-Lemma write_sr w : sr_state w -> write w = (out_sr w, set_nodal w [(sr_name, SF w)]).
-Proof.
-  intros [Hs Hn]. unfold write, nodal_step, out_sr, SF.
-  destruct (w_spheres w) as [| s ss] eqn:Es; [congruence |]. rewrite andb_false_r. cbn [is_nil].
-  destruct Hn as [-> | [f ->]]; cbn [map fst snd dict_set]; rewrite ?Z.eqb_refl; reflexivity.
-Qed.
-
-Lemma writes_sr n : forall w, sr_state w -> forall o, In o (writes n w) -> o = out_sr w.
-Proof.
-  induction n as [| n IH]; intros w H o Hin; cbn [writes In] in Hin; [contradiction |].
-  rewrite (write_sr w H) in Hin. cbn [fst snd] in Hin. destruct Hin as [<- | Hin]; [reflexivity |].
-  apply IH in Hin; [exact Hin |]. destruct H as [Hs _]. split; [exact Hs | right; eexists; reflexivity].
-Qed.
-
-Lemma repeated_writes w : NoDup (map fst (w_nodal w)) -> w_spheres w = [] \/ only_sphere_radius w ->
-  forall n o, In o (writes n w) -> o = fst (write w).
-Proof.
-  intros Hn Hc n o Hin. destruct (w_spheres w) as [| s ss] eqn:Es.
-  - now apply (writes_no_spheres w Es n).
-  - destruct Hc as [? | Hc]; [discriminate |].
-    assert (Hst : sr_state w) by (split; [congruence | now apply nodal_shape]).
-    rewrite (write_sr w Hst). cbn [fst]. now apply (writes_sr n).
-Qed.
-
-
-(* write() keeps the invariant when it does not pad a user field *)
-Lemma write_wf w : wf_writer w -> w_spheres w = [] \/ only_sphere_radius w -> wf_writer (snd (write w)).
-Proof.
-  intros Hw Hc. destruct (w_spheres w) as [| s ss] eqn:Es.
-  - now rewrite (write_no_spheres w Es).
-  - destruct Hc as [? | Hc]; [discriminate |]. destruct Hw as (Hl & Hcl & [Hn1 Hn2] & Hcf).
-    assert (Hst : sr_state w) by (split; [congruence | now apply nodal_shape]).
-    rewrite (write_sr w Hst). cbn [snd]. unfold wf_writer, nodal_ok, set_nodal.
-    cbn [w_outnodes w_points w_cells w_k w_nodal w_cell w_spheres map fst].
-    repeat split; try assumption; try apply Hcf.
-    + repeat constructor. intros [].
-    + constructor; [| constructor]. left. split; [reflexivity | congruence].
-Qed.
+Lemma writes_length n w : length (writes n w) = n.
+Proof. revert w. induction n as [| n IH]; intros w; [reflexivity |]. cbn [writes length]. now rewrite IH. Qed.
 
 (* ------------------------------------------------------------------ what [check] means *)
 Lemma data_ok_sound n d : data_ok n d = true -> data_spec n d.
